@@ -751,7 +751,8 @@ def parse_check(line, lvl):
         k = toy_kind(sexp.dec(rule))
         if k and k[0] == "macro" and k[1] <= lvl and comp != "N":
             evals.append((sexp.dec(rule), p_seq(comp)))
-    return ("ok", p_seq(x[1]), tree, [p_seq(g) for g in x[3]], sorted(evals))
+    trusted = [p_seq(th) for pos, rule, comp, th in x[4] if comp == "N" and sexp.dec(rule) != "sorry"]
+    return ("ok", p_seq(x[1]), tree, [p_seq(g) for g in x[3]], sorted(evals), trusted)
 
 
 def parse_extend(line):
@@ -780,10 +781,14 @@ def ref_can_prove(r, t):
     return r[1] == t[1] and set(r[0]) <= set(t[0])
 
 
-def ref_check(items, thms, no_gaps, level, keep="stated"):
+def ref_check(items, thms, no_gaps, level, keep="stated", compute_only=False, trusted=None):
     """Replay in document order. Citations are positions (that is how the implementation resolves
     them); identifiers carried by the items play no role.  Raises Flag when the proof is not
-    justified; returns (final sequent or None, gaps)."""
+    justified; returns (final sequent or None, gaps, computed sequent of the last line).
+    compute_only: a stated sequent is taken on trust (collected in `trusted`), the contents of a
+    `subproof` block are still replayed; what is derived is derived from the trusted statements."""
+    if trusted is None:
+        trusted = []
     verified = {}
     present = set()
     gaps = []
@@ -824,6 +829,14 @@ def ref_check(items, thms, no_gaps, level, keep="stated"):
             if no_gaps:
                 raise Flag("gap-tolerated-with-no-gaps", "sorry at %s" % (pos,))
             gaps.append(st)
+            verified[pos] = st
+            return
+        if compute_only and st is not None:
+            if rule == "subproof":
+                if sub is None:
+                    raise Flag("rule-failed", "block without contents at %s" % (pos,))
+                block(sub, pos)
+            trusted.append(st)
             verified[pos] = st
             return
         if rule == "theorem":
@@ -900,13 +913,13 @@ def judge_check(ctx, case, res):
     stores today) or the computed ones; an accepted run is fine when one replay justifies it (so a
     checker that returned / handed on the stronger computed sequents would not be reported)."""
     ng, co, lvl = case["cfg"]
-    if res[0] != "ok" or co:
+    if res[0] != "ok":
         return False
     first = None
     for keep in ("stated", "computed"):
         bad = None
         try:
-            final, gaps, final_comp = ref_check(case["items"], case["thms"], ng, lvl, keep=keep)
+            final, gaps, final_comp = ref_check(case["items"], case["thms"], ng, lvl, keep=keep, compute_only=co)
             if res[1] is not None and not any(x is not None and ref_can_prove(x, res[1]) for x in (final, final_comp)):
                 bad = ("result-not-verified", "returned %s, replay gives %s (computed %s)" % (res[1], final, final_comp))
             elif ng and res[3]:
@@ -1538,6 +1551,17 @@ def stream_check(ctx, env, cases, label, oracle=True):
             m = parse_check(out[idx], case["cfg"][2])
             if m[0] == "err" and res[0] == "err" and m[1] != res[1]:
                 ctx.count("refusal-message-class-differs(not compared)")
+            if m[0] == "ok" and res[0] == "ok":
+                # the model's ghost output "taken on trust" against the reference checker's own list
+                tr = []
+                try:
+                    ref_check(case["items"], case["thms"], case["cfg"][0], case["cfg"][2], compute_only=case["cfg"][1], trusted=tr)
+                    cn = lambda q: (tuple(sorted(set(q[0]))), q[1])
+                    if sorted(map(cn, tr)) != sorted(map(cn, m[5])) and ndis < 3:
+                        ndis += 1
+                        ctx.broken("correspondence:c02:trusted", "case=%s oracle=%s model=%s" % (json.dumps(case), tr, m[5]))
+                except Flag:
+                    pass
             if not same_result(m, res, case):
                 ndis += 1
                 if ndis <= 3:
@@ -1897,7 +1921,7 @@ def run(ctx):
     ctx.assumptions += [
         "a proof object whose parts are shared between places reaches the model as its unfolding (argued in Model.lean, tested by the shared-* streams)",
         "Python's recursion limit is modelled by fuel; theorems hold for every fuel",
-        "compute_only=True trusts stated sequents by design: theorems and oracle are for compute_only=False, the mode is covered by correspondence only"]
+        "compute_only=True trusts stated sequents by design: compute_only_computes and the oracle say what is derived FROM the trusted statements, nothing about them"]
     try:
         env = Env(ctx)
         stream_itemid(ctx, env)
